@@ -193,7 +193,8 @@ def _audit_and_pin(prop, r, rc, thorough):
                 except OSError:
                     pass
             dst = os.path.join(d, 'drv_%s.%d' % (prop.lower(), os.getpid()))
-            shutil.copy2(src, dst)
+            shutil.copy(src, dst)       # (not copy2: the copy's age, not the build output's, decides the clean-up above)
+            os.utime(dst, None)
             _PRIVATE_DRV[prop] = dst
             owner = os.getpid()
             # (forked pool workers inherit the handler: only the process that made the copy removes it)
